@@ -27,6 +27,148 @@ META = {
 
 MARK_CTL, MARK_VAL = 119, 127
 
+# ---- the class of the exception at the fault site (catalogue of impl/c17_impl.py; what each entry raises is MEASURED on the
+# implementation at the start of every run and reported in the evidence) ---------------------------------------------------
+FAULT_EXPRS = ["padd-str", "add-none", "pdiv-zero", "pmod-zero", "int-str", "dict-key", "pdictkey", "list-index", "parrayindex",
+               "attr-none", "pabs-str", "pow-overflow", "pdegree-str", "name-error", "decode", "assert", "not-implemented", "oserror",
+               "runtime", "user-class", "user-typeerror", "user-keyerror"]
+CTOR_VARIANTS = ["note+degree", "bad-key", "degree-str", "octave-none", "key-int", "transpose-list"]
+EXC_NAMES = ["RuntimeError", "TypeError", "ValueError", "ZeroDivisionError", "KeyError", "IndexError", "AttributeError", "AssertionError",
+             "OverflowError", "NotImplementedError", "UnicodeDecodeError", "OSError", "UserFault", "UserTypeError", "UserLookup"]
+
+
+def fault_item(rng, kind):
+    """a stream item that raises: a real failing pattern expression / an event dict Event() rejects; one in six keeps the
+    plain scripted raiser (RuntimeError) of the scenario format"""
+    if kind == "raise_eval":
+        return {"k": kind} if rng.random() < 0.15 else {"k": kind, "expr": rng.choice(FAULT_EXPRS)}
+    return {"k": kind} if rng.random() < 0.15 else {"k": kind, "variant": rng.choice(CTOR_VARIANTS)}
+
+
+def site_class(item, catalogue):
+    """the class name the fault site raises, as measured on the implementation (None: not known)"""
+    if item.get("expr"):
+        c = catalogue.get("expr:" + item["expr"])
+    elif item.get("variant"):
+        c = catalogue.get("ctor:" + item["variant"])
+    else:
+        return "RuntimeError" if item["k"] == "raise_eval" else "InvalidEventException"
+    return c[0] if c else None
+
+
+# ---- re-configuration of the tolerance switch on the existing Timeline --------------------------------------------------
+def insert_flips(ops, flips):
+    """flips: [(tick number, flag)] - `timeline.ignore_exceptions = flag` after that many ticks have run (behind the operations
+    already made at that instant, before the next tick); the tick operations are split where needed"""
+    out, t = [], 0
+    pending = sorted(flips, key=lambda p: p[0])
+    for o in ops:
+        if o[0] != "tick":
+            out.append(o)
+            continue
+        n = o[1]
+        while n > 0:
+            for p in [p for p in pending if p[0] <= t]:
+                out.append(["set_ignore", bool(p[1])]); pending.remove(p)
+            upcoming = [p[0] for p in pending if p[0] < t + n]
+            k = (min(upcoming) - t) if upcoming else n
+            out.append(["tick", k]); t += k; n -= k
+    for p in pending:
+        out.append(["set_ignore", bool(p[1])])
+    return out
+
+
+def flag_at(ctor, flips, tick):
+    """the value of the switch when tick number [tick] runs"""
+    f = ctor
+    for pos, b in sorted(flips, key=lambda p: p[0]):
+        if pos <= tick:
+            f = bool(b)
+    return f
+
+
+def gen_flips(rng, ctor, horizon, style):
+    if style == "early":          # the shorthand's way: construct, then assign - before the clock starts or shortly after
+        return [(rng.choice([0, 0, 0, 1, 2]), not ctor)]
+    n = rng.choice([1, 2, 2, 3, 4])
+    pos = sorted(rng.randint(0, max(1, min(horizon, 14))) for _ in range(n))
+    out, f = [], ctor
+    for p in pos:
+        f = (not f) if rng.random() < 0.85 else f
+        out.append((p, f))
+    return out
+
+
+# ---- scenario -> Coq over the widened alphabet of Sched/Reconf.v ---------------------------------------------------------
+RHEADER = "From Isobar Require Import Base.Prelude Sched.Model Sched.Obs Sched.Reconf.\n"
+
+
+def c_event(ev):
+    return "RStopIter" if ev["k"] == "raise_stop" else S.coq_event(ev)
+
+
+def c_stream(s):
+    return "(mkStream %s 0%%nat %s)" % (lst([c_event(e) for e in s["items"]]), blit(s["cyclic"]))
+
+
+def c_op(o):
+    if o[0] == "schedule":
+        _, s, q, d, count, rwd, name, replace = o
+        return "OSchedule %s %s %s %s %s %s %s" % (c_stream(s), S.oz(q), S.oz(d), S.oz(count), blit(rwd), S.oz(name), blit(replace))
+    if o[0] == "update":
+        _, t, s, q, d, count = o
+        return "OUpdate %s %s %s %s %s" % (natlit(t), c_stream(s), S.oz(q), S.oz(d), S.oz(count))
+    return S.coq_op(o)
+
+
+def r_history(sc):
+    return lst(["rhop (RFlag %s) 1" % blit(bool(o[1])) if o[0] == "set_ignore"
+                else "rhop (RO (%s)) %s" % (c_op(o), zlit(o[1] if o[0] == "tick" else 1)) for o in sc["ops"]])
+
+
+def r_agrees_term(sc, obs):
+    return "ragrees %s %s %s" % (S.coq_config(sc), r_history(sc), S.coq_expected(obs))
+
+
+def r_model_disagreements(run, scenarios, results, chunk=30):
+    """as sched_common.model_disagreements, on Reconf.rrun (which is Model.run on a history without assignments: rrun_no_flags)"""
+    terms = []
+    for sc, r in zip(scenarios, results):
+        if "driver_error" in r or not S.obs_well_typed(r["obs"]):
+            terms.append("false")
+        else:
+            terms.append(r_agrees_term(sc, r["obs"]))
+    bad = run.coq_failing(RHEADER, terms, chunk=chunk)
+    if bad:
+        probe = ["rout_of_fuel %s %s" % (S.coq_config(scenarios[i]), r_history(scenarios[i])) if terms[i] != "false" else "false" for i in bad]
+        spent = set(run.coq_failing(RHEADER, ["negb (%s)" % t for t in probe], chunk=chunk))
+        keep = []
+        for j, i in enumerate(bad):
+            if j in spent:
+                run.discard("model-out-of-fuel")
+            else:
+                keep.append(i)
+        bad = keep
+    return bad
+
+
+def r_model_trace(run, sc):
+    return run.coq_eval(RHEADER, "sparse (rrun %s tl0 (rexpand %s))" % (S.coq_config(sc), r_history(sc)))
+
+
+def r_report_disagreement(run, sc, r, kind, site, extra=None):
+    doc = {"broken": "correspondence Sched/Model.v + Sched/Reconf.v <-> isobar Timeline/Track on this history (the theorems of Props/C17.v "
+                     "no longer speak about this code)",
+           "scenario": sc, "observed": r.get("obs", r),
+           "python": "PYTHONPATH=/repo /venv/bin/python /verif/harness/impl/c17_impl.py <<< '{\"scenarios\": [<the scenario of this file>]}'"}
+    try:
+        doc["model"] = r_model_trace(run, sc)
+    except Exception as e:      # pragma: no cover
+        doc["model"] = "unavailable: %s" % e
+    if extra:
+        doc.update(extra)
+    return run.violation({"kind": kind, "site": site}, doc, found_input=False)
+
 
 def base_desc(rng):
     """a fault-free C07-style joint scenario"""
@@ -132,19 +274,26 @@ class Plan:
     def __init__(self):
         self.scs, self.fin, self.keys = [], [], {}
 
-    def add(self, key, desc, mode_ignore=None, dev_fail=None, run_mode=False):
+    def add(self, key, desc, mode_ignore=None, dev_fail=None, run_mode=False, flips=None, dev_exc=None):
+        """mode_ignore: what the Timeline constructor is given; flips: later assignments of the attribute (see insert_flips)"""
         k = json.dumps(key, sort_keys=True, default=str)
         if k in self.keys:
             return self.keys[k]
         order = list(range(len(desc["tracks"])))
         sc, ids = M.scenario(desc, order)
+        sc["callbacks"] = [dict(c, **({"exc": d["exc"]} if d.get("exc") else {})) for c, d in zip(sc["callbacks"], desc["callbacks"])]
         if mode_ignore is not None:
             sc["config"]["ignore"] = mode_ignore
         if dev_fail is not None:
             sc["config"]["dev_fail"] = dev_fail
+            if dev_exc:
+                sc["config"]["dev_fail_exc"] = dev_exc
+        if flips:
+            sc["ops"] = insert_flips(sc["ops"], flips)
         if run_mode:
             sc["config"]["stop_when_done"] = True
-            sc["ops"] = [o for o in sc["ops"] if o[0] == "schedule"] + [["run", 400]]
+            first_tick = next((i for i, o in enumerate(sc["ops"]) if o[0] == "tick"), len(sc["ops"]))
+            sc["ops"] = [o for i, o in enumerate(sc["ops"]) if o[0] == "schedule" or (o[0] == "set_ignore" and i < first_tick)] + [["run", 400]]
         self.scs.append((sc, ids, desc))
         self.fin.append(G.finalize(sc))
         self.keys[k] = len(self.scs) - 1
@@ -157,21 +306,41 @@ def gen_cases(rng, n_base, per_base):
     for b in range(n_base):
         desc = base_desc(rng)
         k = len(desc["tracks"])
+        H = desc["horizon"]
         sites = [(f, idx) for f in range(k) for idx in range(len(desc["tracks"][f]["stream"]["items"]))]
         rng.shuffle(sites)
         sites.sort(key=lambda s_: s_[1] + 2.5 * rng.random())      # early events first: they are reached within the horizon
         i_base = plan.add(("base", b), desc)
         chosen = sites[:per_base] if per_base else sites
+
+        def modes(n_reconf):
+            """the tolerance set-ups of one faulty scenario: the constructor argument alone (both values), then set-ups in which the
+            attribute is assigned on the existing Timeline: (label, constructor flag, flips)"""
+            out = [("ctor", True, []), ("ctor", False, [])]
+            for j in range(n_reconf):
+                ctor = rng.random() < 0.5
+                style = "early" if (j == 0 and rng.random() < 0.7) else "multi"
+                out.append((style, ctor, gen_flips(rng, ctor, H, style)))
+            return out
         for (f, idx) in chosen:
-            kind = rng.choice(["raise_eval", "raise_ctor", "raise_eval", "cb_exc", "cb_stop"])
-            if kind.startswith("raise"):
+            kind = rng.choice(["raise_eval", "raise_ctor", "raise_eval", "cb_exc", "cb_stop", "raise_eval", "raise_stop"])
+            if kind == "raise_stop":
+                # a subclass of StopIteration coming out of the pattern: the end-of-stream signal, not a fault
                 fd = with_item(desc, f, idx, {"k": kind})
-                i_mark = plan.add(("mark", b, f, idx), marker_variant(desc, f, idx))
                 i_minus = plan.add(("minus", b, (f,)), without(desc, {f}))
                 for ignore in (True, False):
-                    i_run = plan.add(("fault", b, f, idx, kind, ignore), fd, mode_ignore=ignore)
-                    cases.append({"kind": "stream", "site": kind, "b": b, "f": [f], "idx": [idx], "ignore": ignore, "run": i_run,
-                                  "mark": [i_mark], "minus": i_minus, "base": i_base, "desc": fd})
+                    i_run = plan.add(("stopcls", b, f, idx, ignore), fd, mode_ignore=ignore)
+                    cases.append({"kind": "stopcls", "site": "stop-subclass", "b": b, "f": [f], "idx": [idx], "ignore": ignore, "ctor": ignore,
+                                  "flips": [], "run": i_run, "minus": i_minus, "desc": fd})
+            elif kind.startswith("raise"):
+                item = fault_item(rng, kind)
+                fd = with_item(desc, f, idx, item)
+                i_mark = plan.add(("mark", b, f, idx), marker_variant(desc, f, idx))
+                i_minus = plan.add(("minus", b, (f,)), without(desc, {f}))
+                for label, ctor, flips in modes(2 if per_base else 3):
+                    i_run = plan.add(("fault", b, f, idx, item, ctor, flips), fd, mode_ignore=ctor, flips=flips)
+                    cases.append({"kind": "stream", "site": kind, "b": b, "f": [f], "idx": [idx], "ignore": ctor, "ctor": ctor, "flips": flips,
+                                  "setup": label, "item": item, "run": i_run, "mark": [i_mark], "minus": i_minus, "base": i_base, "desc": fd})
             else:
                 d2 = copy.deepcopy(desc)
                 mod = None
@@ -193,16 +362,22 @@ def gen_cases(rng, n_base, per_base):
                 i_none = plan.add(("cbnone", b, f, idx, mod), d2)
                 d3 = copy.deepcopy(d2)
                 d3["callbacks"][cb]["raise"] = "exc" if kind == "cb_exc" else "stop"
-                for ignore in (True, False):
-                    i_run = plan.add(("cbfault", b, f, idx, kind, ignore, mod), d3, mode_ignore=ignore)
-                    cases.append({"kind": kind, "site": "callback", "b": b, "f": [f], "idx": [idx], "cb": cb, "ignore": ignore, "run": i_run,
-                                  "none": i_none, "desc": d3})
+                exc = None
+                if kind == "cb_exc" and rng.random() < 0.85:
+                    exc = rng.choice(EXC_NAMES)
+                    d3["callbacks"][cb]["exc"] = exc
+                for label, ctor, flips in modes(1):
+                    i_run = plan.add(("cbfault", b, f, idx, kind, exc, ctor, flips, mod), d3, mode_ignore=ctor, flips=flips)
+                    cases.append({"kind": kind, "site": "callback", "b": b, "f": [f], "idx": [idx], "cb": cb, "ignore": ctor, "ctor": ctor,
+                                  "flips": flips, "setup": label, "exc": exc, "run": i_run, "none": i_none, "desc": d3})
         # a device fault
         for _ in range(2 if per_base else 4):
             j = rng.choice([0, 1, 2, 3, 4, 5, 6, 8, 11])
-            for ignore in (True, False):
-                i_run = plan.add(("dev", b, j, ignore), desc, mode_ignore=ignore, dev_fail=j)
-                cases.append({"kind": "device", "site": "device", "b": b, "j": j, "ignore": ignore, "run": i_run, "base": i_base, "desc": desc,
+            dexc = rng.choice(EXC_NAMES)
+            for label, ctor, flips in modes(1):
+                i_run = plan.add(("dev", b, j, dexc, ctor, flips), desc, mode_ignore=ctor, dev_fail=j, flips=flips, dev_exc=dexc)
+                cases.append({"kind": "device", "site": "device", "b": b, "j": j, "ignore": ctor, "ctor": ctor, "flips": flips, "setup": label,
+                              "exc": dexc, "run": i_run, "base": i_base, "desc": desc,
                               "minus_of": {f: plan.add(("minus", b, (f,)), without(desc, {f})) for f in range(k)}})
         # two stream faults on different tracks
         if k >= 2 and len(sites) >= 2:
@@ -210,26 +385,31 @@ def gen_cases(rng, n_base, per_base):
             others = [s for s in sites if s[0] != f1]
             if others:
                 (f2, x2) = others[0]
-                fd = with_item(with_item(desc, f1, x1, {"k": "raise_eval"}), f2, x2, {"k": "raise_ctor"})
+                it1, it2 = fault_item(rng, "raise_eval"), fault_item(rng, "raise_ctor")
+                fd = with_item(with_item(desc, f1, x1, it1), f2, x2, it2)
                 i_m1 = plan.add(("mark", b, f1, x1), marker_variant(desc, f1, x1))
                 i_m2 = plan.add(("mark", b, f2, x2), marker_variant(desc, f2, x2))
                 i_minus = plan.add(("minus", b, tuple(sorted((f1, f2)))), without(desc, {f1, f2}))
                 for ignore in (True, False):
-                    i_run = plan.add(("fault2", b, f1, x1, f2, x2, ignore), fd, mode_ignore=ignore)
-                    cases.append({"kind": "stream", "site": "two-faults", "b": b, "f": [f1, f2], "idx": [x1, x2], "ignore": ignore, "run": i_run,
-                                  "mark": [i_m1, i_m2], "minus": i_minus, "base": i_base, "desc": fd})
-        # through Timeline.run(): finite scenario, everything scheduled before the clock starts
+                    i_run = plan.add(("fault2", b, f1, x1, f2, x2, it1, it2, ignore), fd, mode_ignore=ignore)
+                    cases.append({"kind": "stream", "site": "two-faults", "b": b, "f": [f1, f2], "idx": [x1, x2], "ignore": ignore, "ctor": ignore,
+                                  "flips": [], "run": i_run, "mark": [i_m1, i_m2], "minus": i_minus, "base": i_base, "desc": fd})
+        # through Timeline.run(): finite scenario, everything scheduled before the clock starts; the mode given to the
+        # constructor, or assigned afterwards (before run())
         if b % 4 == 0:
             dr = copy.deepcopy(desc)
             for t in dr["tracks"]:
                 t["stream"]["cyclic"] = False; t["rwd"] = True; t["at"] = 0; t["unschedule_at"] = None
             dr["horizon"] = 400
             (f, idx) = rng.choice([(f, idx) for f in range(k) for idx in range(len(dr["tracks"][f]["stream"]["items"]))])
-            fd = with_item(dr, f, idx, {"k": rng.choice(["raise_eval", "raise_ctor"])})
+            item = fault_item(rng, rng.choice(["raise_eval", "raise_ctor"]))
+            fd = with_item(dr, f, idx, item)
             for ignore in (True, False):
-                i_ticks = plan.add(("runref", b, f, idx, ignore), fd, mode_ignore=ignore)
-                i_run = plan.add(("run", b, f, idx, ignore), fd, mode_ignore=ignore, run_mode=True)
-                cases.append({"kind": "run", "site": "run()", "b": b, "f": [f], "idx": [idx], "ignore": ignore, "run": i_run, "ticks": i_ticks, "desc": fd})
+                for ctor, flips in ((ignore, []), (not ignore, [(0, ignore)])):
+                    i_ticks = plan.add(("runref", b, f, idx, item, ctor, flips), fd, mode_ignore=ctor, flips=flips)
+                    i_run = plan.add(("run", b, f, idx, item, ctor, flips), fd, mode_ignore=ctor, flips=flips, run_mode=True)
+                    cases.append({"kind": "run", "site": "run()", "b": b, "f": [f], "idx": [idx], "ignore": ignore, "ctor": ctor, "flips": flips,
+                                  "setup": "early" if flips else "ctor", "item": item, "run": i_run, "ticks": i_ticks, "desc": fd})
     return plan, cases
 
 
@@ -241,7 +421,13 @@ def fault_tick(markJ, ch):
     return None
 
 
-def judge(case, plan, results):
+def escaped_on_tick(sc, r):
+    """{tick number: class name} of the exceptions that left tick()"""
+    idx2tick = {i: t for i, (kind, t) in enumerate(S.tick_indices(sc)) if kind == "tick"}
+    return {idx2tick[i]: (name, mro) for i, name, mro in r.get("escaped", []) if i in idx2tick}
+
+
+def judge(case, plan, results, catalogue):
     """returns list of (kind, detail)"""
     bad = []
     sc, ids, desc = plan.scs[case["run"]]
@@ -268,6 +454,10 @@ def judge(case, plan, results):
                 bad.append(("run-not-propagated", "tick() raises on tick %d but Timeline.run() without ignore_exceptions ended with %r" % (esc[0], rr["how"])))
             if not esc and rr["how"] != "returned":
                 bad.append(("run-trace", "no fault is reached, yet run() ended with %r" % rr["how"]))
+            want_cls = site_class(case["item"], catalogue)
+            case["exc_class"] = want_cls
+            if esc and rr["how"].startswith("exc:") and want_cls and rr["how"] != "exc:" + want_cls:
+                bad.append(("run-other-exception", "the pattern raises %s, Timeline.run() let %r out" % (want_cls, rr["how"])))
         return bad
     J = M.per_tick(sc, r)
     times = r.get("times", [])
@@ -292,11 +482,32 @@ def judge(case, plan, results):
                     n += 1
     strikes.sort()
     case["strikes"] = strikes
+    if case["kind"] == "stopcls":
+        if "exc" in results_:
+            bad.append(("stop-subclass-escaped", "a subclass of StopIteration raised by the pattern is the end of its stream, yet tick %d raised (%r)"
+                        % (results_.index("exc"), escaped_on_tick(sc, r).get(results_.index("exc")))))
+            return bad
+        for t, x in enumerate(times):
+            if abs(x - (t + 1)) > 1e-6:
+                bad.append(("clock", "after %d ticks Timeline.current_time is %r ticks" % (t + 1, x))); break
+        rsc, rids, rdesc = plan.scs[case["minus"]]
+        R = M.per_tick(rsc, results[case["minus"]])
+        for k in range(len(chans)):
+            if k not in case["f"] and proj(J, chans[k], cb_owner) != proj(R, chans[k], cb_owner):
+                bad.append(("interference", "a track whose pattern ends with a StopIteration subclass changed the trace of the track on channel %d" % chans[k]))
+                break
+        return bad
     if case["kind"] in ("stream", "device"):
         first = strikes[0][0] if strikes else None
-        if case["ignore"]:
+        # the mode that counts is the one in force when the fault strikes
+        ignore = flag_at(case["ctor"], case["flips"], first if first is not None else 0)
+        case["eff_ignore"] = ignore
+        if first is None and case["flips"]:
+            ignore = True          # no fault is reached: nothing may escape, whatever the switch does
+        if ignore:
             if "exc" in results_:
-                bad.append(("exception-escaped", "ignore_exceptions is set, yet tick %d raised" % results_.index("exc")))
+                bad.append(("exception-escaped", "ignore_exceptions is set (constructor %r, assignments (after tick n, value) %r; fault strikes %r), yet tick %d raised"
+                            % (case["ctor"], case["flips"], strikes[:2], results_.index("exc"))))
                 return bad
             for t, x in enumerate(times):
                 if abs(x - (t + 1)) > 1e-6:
@@ -369,8 +580,15 @@ def judge(case, plan, results):
                     bad.append(("spurious-exception", "no fault is reached, yet tick %d raised" % results_.index("exc")))
             else:
                 if results_[first] != "exc" or "exc" in results_[:first]:
-                    bad.append(("not-propagated", "ignore_exceptions is off and the fault strikes on tick %d: tick results around it %r"
-                                % (first, results_[max(0, first - 2):first + 2])))
+                    bad.append(("not-propagated", "ignore_exceptions is off (constructor %r, assignments %r) and the fault strikes on tick %d: tick results around it %r"
+                                % (case["ctor"], case["flips"], first, results_[max(0, first - 2):first + 2])))
+                elif len(case.get("f", [0])) == 1:
+                    # "the same exception propagates to the caller": its class is the class raised at the site
+                    want_cls = site_class(case["item"], catalogue) if case["kind"] == "stream" else case.get("exc")
+                    got = escaped_on_tick(sc, r).get(first)
+                    case["exc_class"] = want_cls
+                    if want_cls and got and got[0] != want_cls:
+                        bad.append(("other-exception", "the fault site raises %s, tick %d let %s out (MRO %r)" % (want_cls, first, got[0], got[1])))
     elif case["kind"] in ("cb_exc", "cb_stop"):
         f = case["f"][0]
         nsc = plan.scs[case["none"]][0]
@@ -460,7 +678,12 @@ def check(run):
         n_base, per_base = 500, 0
     plan, cases = gen_cases(rng, n_base, per_base)
     parts = [plan.fin[i::14] for i in range(14) if plan.fin[i::14]]
-    outs = run.impl_parallel("c17_impl", [{"scenarios": p} for p in parts])
+    outs = run.impl_parallel("c17_impl", [{"scenarios": p, "catalogue": i == 0} for i, p in enumerate(parts)])
+    catalogue = outs[0].get("catalogue") or {}
+    dead = sorted(k for k, v in catalogue.items() if v is None)
+    if dead or not catalogue:
+        raise CheckError("fault catalogue of impl/c17_impl.py: these entries do not raise on this tree (replace them): %s" % (dead or "no catalogue"))
+    run.cov["fault_catalogue_measured"] = {k: v[0] for k, v in sorted(catalogue.items())}
     results = [None] * len(plan.fin)
     for si, out in enumerate(outs):
         for j, r in enumerate(out["results"]):
@@ -475,10 +698,23 @@ def check(run):
         need = [case["run"]] + [case[k] for k in ("minus", "base", "none", "ticks") if isinstance(case.get(k), int)] + list(case.get("mark", []))
         if any(i in flagged for i in need):
             continue
-        bad = judge(case, plan, results)
+        bad = judge(case, plan, results, catalogue)
         run.cov["oracle_evaluations"] += 1
         run.dist("site." + case["site"])
-        run.dist("mode." + ("tolerant" if case["ignore"] else "intolerant"))
+        eff = case.get("eff_ignore", case["ignore"])
+        run.dist("mode." + ("tolerant" if eff else "intolerant"))
+        if case.get("flips"):
+            # the switch assigned on the existing Timeline: what the constructor was given vs what is in force at the fault
+            run.dist("reconf.%s.constructed-%s.in-force-%s" % (case.get("setup", "?"), "on" if case["ctor"] else "off", "on" if eff else "off"))
+            run.dist("reconf.assignments", len(case["flips"]))
+            if case.get("strikes") and eff != case["ctor"]:
+                run.dist("reconf.fault-under-a-mode-other-than-the-constructor's")
+        if case.get("exc_class"):
+            run.dist("class." + case["exc_class"])
+        elif case["kind"] in ("stream", "run") and case.get("item"):
+            run.dist("class." + str(site_class(case["item"], catalogue)))
+        elif case.get("exc"):
+            run.dist("class." + case["exc"])
         run.dist("tracks.%d" % len(case["desc"]["tracks"]))
         st = case.get("strikes")
         if st is not None:
@@ -488,15 +724,16 @@ def check(run):
                 run.dist("failing-track." + ("first" if f == 0 else "last" if f == len(case["desc"]["tracks"]) - 1 else "middle"))
         if case.get("cbstop_pending") is not None:
             run.dist("cbstop.pending" if case["cbstop_pending"] else "cbstop.nothing-pending")
-        if (st or case["kind"] in ("cb_exc", "cb_stop", "run")) and len(case["desc"]["tracks"]) >= 2:
+        if (st or case["kind"] in ("cb_exc", "cb_stop", "run", "stopcls")) and len(case["desc"]["tracks"]) >= 2:
             run.nontrivial(json.dumps(plan.fin[case["run"]], sort_keys=True))
         seen = set()
         for kind_, detail in bad:
             if kind_ in seen:
                 continue
             seen.add(kind_); flagged.add(case["run"])
-            run.violation({"kind": kind_, "site": case["site"], "mode": "tolerant" if case["ignore"] else "intolerant"}, {
-                "scenario": plan.fin[case["run"]], "observed": detail, "fault": {k: case[k] for k in ("kind", "site", "f", "idx", "j", "cb", "ignore") if k in case},
+            run.violation({"kind": kind_, "site": case["site"], "mode": "tolerant" if eff else "intolerant"}, {
+                "scenario": plan.fin[case["run"]], "observed": detail,
+                "fault": {k: case[k] for k in ("kind", "site", "f", "idx", "j", "cb", "ignore", "ctor", "flips", "item", "exc", "exc_class") if k in case},
                 "strikes (tick, track index)": case.get("strikes"),
                 "reference_scenarios": {k: plan.fin[case[k]] for k in ("minus", "base", "none", "ticks") if isinstance(case.get(k), int)},
                 "oracle": "containment / non-interference / clock oracle of harness/c17.py",
@@ -509,27 +746,32 @@ def check(run):
     tickable = [i for i in range(len(plan.fin)) if not any(o[0] == "run" for o in plan.fin[i]["ops"]) and "driver_error" not in results[i]]
     fin = [plan.fin[i] for i in tickable]
     res = [results[i] for i in tickable]
-    bad = S.model_disagreements(run, fin, res, chunk=30)
+    bad = r_model_disagreements(run, fin, res, chunk=30)
     run.cov["traces_validated_against_impl"] = len(fin) - len(bad)
+    run.cov["traces_with_reassigned_switch_validated_against_model"] = sum(
+        1 for j, sc in enumerate(fin) if j not in bad and any(o[0] == "set_ignore" for o in sc["ops"]))
     for j in bad:
         if tickable[j] in flagged:
             continue
-        S.report_disagreement(run, fin[j], res[j], "correspondence", "Timeline/Track")
+        r_report_disagreement(run, fin[j], res[j], "correspondence", "Timeline/Track")
     terms = []
     for sc, r in zip(fin, res):
         x = F(r["now_ticks"]).limit_denominator(10 ** 6) * (sc["U"] // sc["tpb"])
-        terms.append("(now (run_state %s tl0 (expand %s)) =? %s)" % (S.coq_config(sc), S.coq_history(sc), zlit(int(x)) if x.denominator == 1 else "(-1)"))
-    badn = run.coq_failing(S.HEADER, terms, chunk=40)
+        terms.append("(now (rrun_state %s tl0 (rexpand %s)) =? %s)" % (S.coq_config(sc), r_history(sc), zlit(int(x)) if x.denominator == 1 else "(-1)"))
+    badn = run.coq_failing(RHEADER, terms, chunk=40)
     run.cov["clock_values_validated_against_model"] = len(terms) - len(badn)
     for j in badn:
         if tickable[j] in flagged or j in bad:
             continue
-        S.report_disagreement(run, fin[j], res[j], "clock", "Timeline.tick",
+        r_report_disagreement(run, fin[j], res[j], "clock", "Timeline.tick",
                               extra={"broken": "the model's clock after this history differs from Timeline.current_time (%r ticks)" % res[j]["now_ticks"]})
     run.cov["rule"] = ("one case = one faulty run judged by the oracle: a C07-style joint scenario (1-6 tracks, distinct channels) with a fault "
-                       "injected at a (failing track, event index) of the base scenario - stream item raising on evaluation / in Event(), j-th "
-                       "device call raising, action callback raising Exception / StopIteration, two faults - in one tolerance mode, through "
-                       "tick() or run(); non-trivial = the fault is reached and at least one other track is scheduled; distinct by scenario text")
+                       "injected at a (failing track, event index) of the base scenario - a failing pattern expression of the catalogue (22 "
+                       "expressions, 15 exception classes) evaluated inside next(event_stream), an event dict Event() rejects, the j-th device "
+                       "call raising, an action callback raising an Exception of some class / StopIteration, a StopIteration subclass from the "
+                       "pattern, two faults - in one tolerance set-up (the constructor argument alone, or the attribute assigned on the existing "
+                       "Timeline once or several times), through tick() or run(); non-trivial = the fault is reached and at least one other track "
+                       "is scheduled; distinct by scenario text")
 
 
 def replay(run, doc):
@@ -540,9 +782,10 @@ def replay(run, doc):
     if "run" in out:
         print("run():", json.dumps(out["run"])[:800])
         return 0
-    bad = S.model_disagreements(run, [fsc], [out]) if "driver_error" not in out else [0]
+    print("escaped:", out.get("escaped", [])[:10])
+    bad = r_model_disagreements(run, [fsc], [out]) if "driver_error" not in out else [0]
     print("replay: implementation/model agree:", not bad)
     if bad:
-        print("model:", S.model_trace(run, fsc)[:1500])
+        print("model:", r_model_trace(run, fsc)[:1500])
     print("see 'observed' / 'reference_scenarios' in the replay file for the oracle's verdict")
     return 1 if bad else 0
